@@ -21,7 +21,7 @@ namespace Psutil.C13
 
 inductive Exc
   | valueError | indexError | attributeError
-  | zombieProcess | noSuchProcess | accessDenied | fileNotFound | keyError
+  | zombieProcess | noSuchProcess | accessDenied | fileNotFound | keyError | typeError
   deriving DecidableEq, Repr
 
 abbrev Res := Except Exc
@@ -66,6 +66,11 @@ structure Cfg where
   /-- does `_parse_smaps_rollup` carry `@wrap_exceptions`? (it must not: the decorator would turn
       ESRCH into NoSuchProcess before `memory_full_info`'s `except` clause sees it) -/
   rollupWrapped : Bool
+  /-- `memory_percent` validates its argument by MEMBERSHIP in the list of `pfullmem._fields`
+      (`valid_types = list(pfullmem._fields)`; `if memtype not in valid_types: raise ValueError`)
+      — not by `hasattr` on the namedtuple class, for which `count`, `index`, `_fields`,
+      `__len__`, … would pass -/
+  pctByMembership : Bool
 
 /-! ### Python primitives not in Base -/
 
@@ -359,5 +364,20 @@ def memoryPercent (c : Cfg) (memtype : String) (info full : Res (List Nat))
           | some t => if t = 0 then vmTotal else t
           | none => vmTotal
         if total > 0 then .ok ((v : Rat) / (total : Rat) * 100) else .error .valueError
+
+/-- the argument of `memory_percent`: a `str`, or any other Python object (None, 3, b'rss', …) -/
+inductive MemArg
+  | str (s : String)
+  | other
+
+/-- `memory_percent(arg)` for any argument. CHARACTERISATION beyond the statement (which speaks
+    of field NAMES): list membership is decided by `==`, so a non-str object is simply "not in"
+    the list of names → ValueError; a validation through `hasattr(cls, arg)` would raise
+    TypeError ("attribute name must be string") instead. -/
+def memoryPercentArg (c : Cfg) (arg : MemArg) (info full : Res (List Nat))
+    (cached : Option Int) (vmTotal : Int) : Res Rat :=
+  match arg with
+  | .str s => memoryPercent c s info full cached vmTotal
+  | .other => if c.pctByMembership then .error .valueError else .error .typeError
 
 end Psutil.C13
